@@ -473,6 +473,9 @@ impl Chooser {
 pub const STALL_TIMEOUT: Duration = Duration::from_secs(120);
 
 pub struct ExecCfg {
+    /// evaluate the isolated references after the scenario instead of before it, so that the
+    /// scenario's threads are the first users of whatever the library initialises lazily
+    pub refs_after: bool,
     pub want_log: bool,
     pub check_mul_claims: bool,
     pub stall_timeout: Duration,
@@ -481,7 +484,9 @@ pub struct ExecCfg {
 /// Execute one plan: real OS threads, one running at a time, the schedule decides who.
 /// `on_stall` is called (and must not return) if a thread never gives the token back.
 pub fn run_plan(plan: &SchedPlan, shared: &Shared, ref_shared: &Shared, refs: &mut Refs, cfg: &ExecCfg, on_stall: &dyn Fn(&SRun) -> ()) -> SRun {
-    ensure_refs(plan, refs, ref_shared);
+    if !cfg.refs_after {
+        ensure_refs(plan, refs, ref_shared);
+    }
     let n = plan.threads.len();
     let sim = Sim::new(n, plan.yield_mask);
     let rs = RunShared::new(plan.nshared_ctx, plan.threads.iter().any(|t| RunShared::needs_prepared(&t.ops)));
@@ -671,6 +676,7 @@ pub fn run_plan(plan: &SchedPlan, shared: &Shared, ref_shared: &Shared, refs: &m
     });
 
     // ---- oracle
+    ensure_refs(plan, refs, ref_shared);
     let mut dg = Digest::new();
     let mut cnt = crate::io::Counters::default();
     let mut log = vec![];
@@ -918,6 +924,9 @@ struct Fam {
 }
 
 pub struct GenCfg {
+    /// "first use in a fresh process" mode: every scenario is a cache-stress scenario of one family,
+    /// every thread gets several arbitrary preemption points among its first 2^18 function entries
+    pub fresh: bool,
     /// restrict the operation families (empty = all families of the focus)
     pub only_fams: Vec<String>,
     /// upper bound on threads per scenario (0 = default distribution)
@@ -1070,7 +1079,7 @@ pub fn gen_plan(seed: u64, cfg: &GenCfg) -> SchedPlan {
     // under which a memo table, a "last value" cache or a lazily built table keyed or locked wrongly
     // hands one caller the other caller's answer. Prepared elements and wNAF state are named by the
     // property, so their families are three times as likely to be chosen.
-    let stress = r.chance(3, 20);
+    let stress = cfg.fresh || r.chance(3, 20);
     if stress {
         let mut weighted: Vec<&Fam> = vec![];
         for f in fams.iter() {
@@ -1140,7 +1149,14 @@ pub fn gen_plan(seed: u64, cfg: &GenCfg) -> SchedPlan {
     // arbitrary preemption (instrumented build only): in half of the runs, one to three threads are
     // preempted at a function entry chosen log-uniformly among their first 2^22 - wherever that is:
     // in the middle of a table fill, between two field operations, inside a lazy initialisation
-    if r.chance(1, 2) {
+    if cfg.fresh {
+        for t in 0..threads.len() {
+            for _ in 0..4 {
+                let e = 6 + r.below(13);
+                threads[t].preempt_at.push((1u64 << e) + r.next() % (1u64 << e));
+            }
+        }
+    } else if r.chance(1, 2) {
         for _ in 0..r.range(1, 3) {
             let t = r.below(threads.len());
             let e = r.below(23);
